@@ -10,7 +10,10 @@ SRC=${MUT_ROOT:-/tmp/wt}/$ID/MUTANT$K
 [ -f $SRC/patch.diff ] || { echo "no patch at $SRC"; exit 2; }
 OUT=/verif/seeded/$ID-${MUT_TAG:-}$K
 mkdir -p $OUT
-cp $SRC/patch.diff $OUT/patch.diff; cp $SRC/demo_test.go $OUT/demo_test.go 2>/dev/null; cp $SRC/meta.json $OUT/agent-meta.json 2>/dev/null
+cp $SRC/patch.diff $OUT/patch.diff
+# a patch rebased by hand on later fix commits (same change, context updated) takes precedence when present
+[ -f $OUT/patch-rebased.diff ] && cp $OUT/patch-rebased.diff $OUT/patch-applied.diff || cp $OUT/patch.diff $OUT/patch-applied.diff
+cp $SRC/demo_test.go $OUT/demo_test.go 2>/dev/null; cp $SRC/meta.json $OUT/agent-meta.json 2>/dev/null
 WT=/tmp/mut-verify-$ID-$K
 git -C /repo worktree remove --force $WT 2>/dev/null
 git -C /repo worktree add -q --detach $WT HEAD || exit 2
@@ -19,10 +22,10 @@ res() { echo "$1" >> $OUT/verify.log; }
 cd $WT
 mkdir -p mutant_demo && cp $OUT/demo_test.go mutant_demo/demo_test.go
 demo_clean=$(go test -count=1 ./mutant_demo/ >/dev/null 2>&1 && echo pass || echo fail)
-applies=$(git apply --check $OUT/patch.diff 2>/dev/null && echo yes || echo no)
+applies=$(git apply --check $OUT/patch-applied.diff 2>/dev/null && echo yes || echo no)
 builds=no; suite=unknown; demo_mut=unknown
 if [ $applies = yes ]; then
-  git apply $OUT/patch.diff
+  git apply $OUT/patch-applied.diff
   if go build ./... 2>/dev/null && go build -tags verif ./... 2>/dev/null; then builds=yes; fi
   if [ $builds = yes ]; then
     suite=$(go test -count=1 $(go list ./... | grep -v mutant_demo) >/dev/null 2>&1 && echo pass || echo fail)
@@ -36,7 +39,7 @@ valid=no
 res "valid=$valid"
 caught=""
 if [ $valid = yes ]; then
-  git -C /repo apply $OUT/patch.diff
+  git -C /repo apply $OUT/patch-applied.diff
   for c in $CHECKS; do
     ${VERIF_BIN:-/verif/bin/check} $c --tier quick > $OUT/check-$c.log 2>&1; rc=$?
     sigs=$(grep -E "^  sig=" $OUT/check-$c.log | head -3 | tr '\n' ' ')
